@@ -113,7 +113,7 @@ def tmp_name_stream(chk, xvc, model, n_random):
             src_abs = os.path.normpath(os.path.join(want_root.encode(), src))
             dst_abs = os.path.normpath(os.path.join(want_root.encode(), dst))
             rel = os.path.relpath(dst_abs, want_root.encode())
-            if rel.startswith((b'.xvc/', b'.git/', b'..')):
+            if rel.startswith((b'.xvc/', b'.git/', b'../')) or rel == b'..':
                 continue          # cache / store files, git's own lock files
             st['renames_observed'] += 1
             srel = os.path.relpath(src_abs, want_root.encode())
